@@ -134,6 +134,20 @@ func checkDescriptor(in []byte, chunk int) error {
 	if !bytes.Equal(buf.Bytes(), in[n:]) {
 		return fmt.Errorf("Unmarshal left %d bytes in the buffer, the payload has %d", buf.Len(), len(in)-n)
 	}
+	// the decoded value is independent of the buffer it came from: the caller reuses the buffer, and may extend CertData
+	rest := buf.Bytes()
+	for i := range rest {
+		rest[i] ^= 0x5a
+	}
+	buf.Reset()
+	buf.Write(bytes.Repeat([]byte{0xee}, len(in)))
+	u.AuthInfo.CertData = append(u.AuthInfo.CertData, 0x77)
+	u.AuthInfo.CertData = u.AuthInfo.CertData[:len(u.AuthInfo.CertData)-1]
+	var ub bytes.Buffer
+	u.Marshal(&ub)
+	if !bytes.Equal(ub.Bytes(), in[:n]) {
+		return fmt.Errorf("a descriptor decoded with Unmarshal changed when the source buffer was reused (it shares memory with its input)")
+	}
 	return nil
 }
 
